@@ -183,3 +183,24 @@ Section WireLifts.
     - exact Ht.
   Qed.
 End WireLifts.
+
+(* C11: observations that do not decode are simply ignored when mixed with good ones *)
+Definition is_decoded (o : option observation) : bool := match o with Some _ => true | None => false end.
+Lemma accept_ignores_none hp aos : forall st,
+  fold_left (accept_step hp) aos st = fold_left (accept_step hp) (List.filter is_decoded aos) st.
+Proof.
+  induction aos as [|o aos IH]; intros st; [reflexivity|]. cbn [List.filter fold_left]. destruct o as [ob|]; cbn [is_decoded fold_left].
+  - apply IH.
+  - rewrite <- IH. f_equal. destruct st as [[rr acc]| |]; reflexivity.
+Qed.
+Theorem undecodable_observations_ignored h cf seq prev aos :
+  (2 * c_f cf + 1 <= length (List.filter is_decoded aos))%nat ->
+  outcome_step h cf seq prev aos = outcome_step h cf seq prev (List.filter is_decoded aos).
+Proof.
+  intros Hlen. unfold outcome_step.
+  assert (Hle : (length (List.filter is_decoded aos) <= length aos)%nat).
+  { clear. induction aos as [|o l IH]; cbn [List.filter length]; [lia|]. destruct (is_decoded o); cbn [length]; lia. }
+  replace (length aos <? 2 * c_f cf + 1)%nat with false by (symmetry; apply Nat.ltb_ge; lia).
+  replace (length (List.filter is_decoded aos) <? 2 * c_f cf + 1)%nat with false by (symmetry; apply Nat.ltb_ge; lia).
+  unfold accept_observations. rewrite (accept_ignores_none (c_has_pred cf) aos). reflexivity.
+Qed.
